@@ -567,6 +567,9 @@ class Packetizer:
             if not util.constant_time_bytes_eq(my_mac, mac):
                 raise SSHException("Mismatched MAC")
         padding = byte_ord(packet[0])
+        if padding + 1 >= packet_size:
+            # would leave no payload at all (or a negative slice bound)
+            raise SSHException("Invalid packet padding length")
         payload = packet[1 : packet_size - padding]
 
         if self.__dump_packets:
@@ -579,6 +582,8 @@ class Packetizer:
 
         if self.__compress_engine_in is not None:
             payload = self.__compress_engine_in(payload)
+            if len(payload) == 0:
+                raise SSHException("Invalid packet: empty payload")
 
         msg = Message(payload[1:])
         msg.seqno = self.__sequence_number_in
